@@ -90,6 +90,20 @@ type dgen struct {
 	id    int
 	feats map[string]bool
 	twin  bool // spell delegation out as a range loop
+	// enclosing breakable statements, innermost last: "loop", "loop-ypost" (its post statement yields), "switch"
+	ctx []string
+}
+
+// nearestLoop returns the kind of the innermost enclosing loop ("" if none) and whether a switch lies in between.
+func (g *dgen) nearestLoop() (kind string, throughSwitch bool) {
+	for i := len(g.ctx) - 1; i >= 0; i-- {
+		if g.ctx[i] == "switch" {
+			throughSwitch = true
+			continue
+		}
+		return g.ctx[i], throughSwitch
+	}
+	return "", throughSwitch
 }
 
 func (g *dgen) nid() int { g.id++; return g.id }
@@ -179,15 +193,19 @@ func (g *dgen) stmt(depth int) {
 		g.feats["deleg:in-if"] = true
 	case r < 80:
 		v := fmt.Sprintf("i%d", g.nid())
+		kind := "loop"
 		if g.rng.Intn(3) == 0 && !g.twin {
 			// delegation in the post statement (only the YieldFrom spelling is a simple statement)
 			g.line("for %s := 0; %s < 2; YFROM(§leaf(1, %d)) {", v, v, g.nid()*1000)
 			g.line("\t%s++", v)
 			g.feats["deleg:in-for-post"] = true
+			kind = "loop-ypost"
 		} else {
-			g.line("for %s := 0; %s < %d; %s++ {", v, v, 1+g.rng.Intn(2), v)
+			g.line("for %s := 0; %s < %d; %s++ {", v, v, 1+g.rng.Intn(3), v)
 		}
+		g.ctx = append(g.ctx, kind)
 		g.block(depth + 1)
+		g.ctx = g.ctx[:len(g.ctx)-1]
 		g.line("}")
 		g.feats["deleg:in-loop"] = true
 	case r < 84 && !g.twin:
@@ -199,7 +217,9 @@ func (g *dgen) stmt(depth int) {
 			g.line("}")
 		case 1:
 			g.line("for YFROM(§leaf(1, %d)); tr.B(%d); tr.E(%d) {", g.nid()*1000, g.nid(), g.nid())
+			g.ctx = append(g.ctx, "loop")
 			g.block(depth + 1)
+			g.ctx = g.ctx[:len(g.ctx)-1]
 			g.line("}")
 		default:
 			g.line("switch YFROM(§chain(1)); tr.N(%d, 2) {", g.nid())
@@ -228,12 +248,34 @@ func (g *dgen) stmt(depth int) {
 		g.feats["deleg:typeswitch-break"] = true
 	case r < 90:
 		g.line("switch tr.N(%d, 3) {", g.nid())
+		g.ctx = append(g.ctx, "switch")
 		g.line("case 0:")
 		g.block(depth + 1)
 		g.line("case 1:")
 		g.block(depth + 1)
+		g.ctx = g.ctx[:len(g.ctx)-1]
 		g.line("}")
 		g.feats["deleg:in-switch"] = true
+	case r < 96 && len(g.ctx) > 0:
+		// break / continue that belong to an enclosing LOOP. Not generated: a break whose target is a switch
+		// that contains yields and a continue of a loop whose post statement yields (the two known findings of C01)
+		kind, through := g.nearestLoop()
+		switch {
+		case kind == "":
+			g.line("tr.E(%d)", g.nid())
+		case g.rng.Intn(2) == 0 && !through:
+			g.line("if tr.B(%d) {", g.nid())
+			g.line("\tbreak")
+			g.line("}")
+			g.feats["deleg:break"] = true
+		case kind == "loop":
+			g.line("if tr.B(%d) {", g.nid())
+			g.line("\tcontinue")
+			g.line("}")
+			g.feats["deleg:continue"] = true
+		default:
+			g.line("tr.E(%d)", g.nid())
+		}
 	default:
 		g.line("{")
 		g.block(depth + 1)
